@@ -69,6 +69,9 @@ def record(workdir):
         meta["mbs_events"] = open(cache_m).read().splitlines() if os.path.exists(cache_m) else []
         ct = os.path.join(root, "events_tok.ndjson")
         meta["tok_events"] = open(ct).read().splitlines() if os.path.exists(ct) else []
+        for key in ("os", "norm"):
+            cp = os.path.join(root, "events_%s.ndjson" % key)
+            meta[key + "_events"] = open(cp).read().splitlines() if os.path.exists(cp) else []
         return open(cache).read().splitlines(), meta
     exes = sorted(glob.glob(os.path.join(root, "t_*")))
     rundir = os.path.join(workdir, "testrun")
@@ -81,7 +84,9 @@ def record(workdir):
         os.makedirs(d, exist_ok=True)
         mlog = os.path.join(rundir, name + ".mbs.ndjson")
         tlog = os.path.join(rundir, name + ".tok.ndjson")
-        env = dict(os.environ, VERIF_WRAPLOG=log, VERIF_WRAPLOG_MBS=mlog, VERIF_WRAPLOG_TOK=tlog)
+        olog = os.path.join(rundir, name + ".os.ndjson")
+        nlog = os.path.join(rundir, name + ".norm.ndjson")
+        env = dict(os.environ, VERIF_WRAPLOG=log, VERIF_WRAPLOG_MBS=mlog, VERIF_WRAPLOG_TOK=tlog, VERIF_WRAPLOG_OS=olog, VERIF_WRAPLOG_NORM=nlog, TZ="UTC")
         try:
             p = subprocess.run([exe], cwd=d, env=env, stdin=subprocess.DEVNULL, stdout=subprocess.DEVNULL, stderr=subprocess.DEVNULL, timeout=120)
             rc = p.returncode
@@ -90,15 +95,23 @@ def record(workdir):
         lines = open(log).read().splitlines() if os.path.exists(log) else []
         mlines = open(mlog).read().splitlines() if os.path.exists(mlog) else []
         tlines = open(tlog).read().splitlines() if os.path.exists(tlog) else []
-        return name, rc, lines, mlines, tlines
+        extra = {}
+        for key, path in (("os", olog), ("norm", nlog)):
+            extra[key] = open(path).read().splitlines() if os.path.exists(path) else []
+        return name, rc, lines, mlines, tlines, extra
     with ThreadPoolExecutor(max_workers=16) as ex:
         outs = list(ex.map(one, exes))
     events, origin, skipped, rcs = [], {}, 0, {}
     eid = 0
     mbs_events, mid = [], 0
     tok_events, sid_base = [], 0
-    for name, rc, lines, mlines, tlines in outs:
+    other = {"os": [], "norm": []}
+    for name, rc, lines, mlines, tlines, extra in outs:
         rcs[name] = rc
+        for key in other:
+            for ln in extra[key]:
+                if ln.startswith('{"id"') and ln.endswith("}"):
+                    other[key].append('{"slack":1,"id":%d,"prog":"%s",' % (len(other[key]) + 1, name) + ln[ln.index(",") + 1:])
         top = 0
         for ln in tlines:          # session ids are made unique across programs (ids = sid * 1000 + call index)
             if ln.startswith('{"e"') and ln.endswith("}"):
@@ -128,6 +141,9 @@ def record(workdir):
     open(cache_m, "w").write("\n".join(mbs_events) + ("\n" if mbs_events else ""))
     open(os.path.join(root, "events_tok.ndjson"), "w").write("\n".join(tok_events) + ("\n" if tok_events else ""))
     meta["tok_events"] = tok_events
+    for key in other:
+        open(os.path.join(root, "events_%s.ndjson" % key), "w").write("\n".join(other[key]) + ("\n" if other[key] else ""))
+        meta[key + "_events"] = other[key]
     json.dump(meta, open(info, "w"))
     meta["mbs_events"] = mbs_events
     return events, meta
@@ -156,6 +172,12 @@ def run_props(prop, tier, seed, workdir, res):
     res.coverage["rule"] += ("; plus the calls the repository's own %d test programs make to the copy / fill / transform entry points, recorded through ld --wrap "
                              "(harness/hwrap.c) and judged by TraceArena.tla (%d events; %d calls with sizes beyond the recording window skipped)" % (meta["programs"], n, meta["skipped_calls"]))
     return res
+
+
+def corpus(key, workdir):
+    """recorded calls of the repository's tests in the event format of the engine `key` ('os' or 'norm')"""
+    events, meta = record(workdir)
+    return meta.get(key + "_events", [])
 
 
 def run_tok(res, workdir):
